@@ -66,15 +66,21 @@ def run(ctx):
         elif c["mode"] == "exponential":
             add([{"op": "exponential_buckets", "start": F(conc(c["a"])), "factor": F(conc(c["b"])), "count": c["n"]}], c["expected"], "bucket-helper", "exponential_buckets(%s, %s, %d)" % (c08.show(c["a"]), c08.show(c["b"]), c["n"]))
         else:
-            m = {"labels": [["l", "v"]]}
+            # values from every magnitude class (the longest decimal renderings included)
+            xs = [1.0, 1.7976931348623157e308, 5e-324, 1e40, -1e-40, float("nan"), float("-inf"), -0.0]
+            x = xs[len(jobs) % len(xs)]
+            y = xs[(len(jobs) // 3) % len(xs)]
+            m = {"labels": [["l", "v\n\"\\é"]], "ts": [0, -(2 ** 63), 2 ** 63 - 1][len(jobs) % 3]}
             if c["ty"] == "HISTOGRAM":
-                m["hist"] = {"count": 1, "sum": F(1.0), "b": [[F(1.0), 1]]}
+                m["hist"] = {"count": 2 ** 64 - 1 if len(jobs) % 5 == 0 else 1, "sum": F(x), "b": [[F(y), 1]]}
             elif c["ty"] == "SUMMARY":
-                m["summary"] = {"count": 1, "sum": F(1.0), "q": [[F(0.5), F(1.0)]]}
+                m["summary"] = {"count": 1, "sum": F(x), "q": [[F(y), F(x)]]}
             elif c["ty"] == "GAUGE":
-                m["gauge"] = F(1.0)
+                m["gauge"] = F(x)
             elif c["ty"] == "COUNTER":
-                m["counter"] = F(1.0)
+                m["counter"] = F(x)
+            elif c["ty"] == "UNTYPED":
+                m["untyped"] = F(x)
             fam = {"help": "h", "type": c["ty"], "metrics": [m] * c["nmetrics"]}
             if c["named"]:
                 fam["name"] = "a"
